@@ -84,6 +84,15 @@ def driverStep (d : DState) (line : SExp) : DState × SExp :=
       else (d, .atom "bad-op")
     | _, _ => (d, .atom "bad-op")
   | .list [.atom "skip"] => (d, .list [.atom "skip"])
+  | .list [.atom "save", .atom how, dirty] =>
+    -- the font was written (or the attempt failed): which flags a save clears is C06's subject; the model is told the
+    -- flags afterwards, exactly as it is told the initial ones
+    match asListOf? asNat? dirty with
+    | some ds =>
+      let ts' := { d.ts with s := { d.ts.s with dirty := ds } }
+      ({ ts := ts' }, .list [tagged "saved" [.atom how],
+        tagged "dirty" [setOf (((List.range ts'.tree.length).filter fun j => decide (j ∈ ds) && attached ts'.tree j).map ofNat)]])
+    | none => (d, .atom "bad-op")
   | .list [.atom "nop"] => fin d.ts
   | .list [.atom "mut", i, k, .str name, .atom mode] =>
     match asNat? i, asKind? k with
